@@ -795,7 +795,9 @@ func (r *reader) read(src []byte) {
 			}
 		}
 		if r.one && 0 < len(r.code) {
-			if b == ')' {
+			// A list, string, or |symbol| ends with the byte just read so the
+			// end position is after it. All others end before the delimiter.
+			if b == ')' || ((b == '"' || b == '|') && r.mode == valueMode) {
 				r.pos++
 			}
 			return
